@@ -127,9 +127,26 @@ def build_all(prop, cfg, log):
                 res["gen_ok"] = False
         elif not cfg.get("no_props"):
             # capture Print Assumptions of the property theorems
-            rc, out, dt = sh(["coqc", "-Q", "theories", "Geo", "-w", "-notation-overridden,-deprecated-hint-without-locality,-deprecated-instance-without-locality,-ambiguous-paths,-deprecated-syntactic-definition",
-                              "theories/Props/%s.v" % prop], cwd=COQ, timeout=600)
-            res["assumptions_raw"] = out
+            # (re-running coqc on the already compiled Props file only prints; cached per compiled .vo)
+            vo = os.path.join(COQ, "theories", "Props", prop + ".vo")
+            cache = os.path.join(BUILD, "assumptions_%s.json" % prop)
+            stamp = "%d" % os.stat(vo).st_mtime_ns if os.path.exists(vo) else ""
+            cached = None
+            os.makedirs(os.path.join(BUILD, "assum"), exist_ok=True)
+            try:
+                c = json.load(open(cache))
+                if c.get("stamp") == stamp:
+                    cached = c["raw"]
+            except Exception:
+                pass
+            if cached is None:
+                rc, out, dt = sh(["coqc", "-Q", "theories", "Geo", "-w", "-notation-overridden,-deprecated-hint-without-locality,-deprecated-instance-without-locality,-ambiguous-paths,-deprecated-syntactic-definition",
+                                  "-o", os.path.join(BUILD, "assum", prop + ".vo"), "theories/Props/%s.v" % prop], cwd=COQ, timeout=900)
+                log.append(("print assumptions", rc, dt, out[-500:]))
+                cached = out
+                if rc == 0:
+                    json.dump({"stamp": stamp, "raw": out}, open(cache, "w"))
+            res["assumptions_raw"] = cached
         fcntl.flock(lk, fcntl.LOCK_UN)
     return res
 
